@@ -105,6 +105,47 @@ func GenWireQueries(g *Gen, n int, badvers bool) []Query {
 	return qs
 }
 
+// GenUdpQueries draws queries for the size clause: no EDNS / EDNS sizes 512, 600, 1232, 4096,
+// with and without a client-subnet option (v4 /24, v6 /56, v6 /128) and DO.
+func GenUdpQueries(g *Gen, n int) []Query {
+	r := g.R
+	var qs []Query
+	for len(qs) < n {
+		var name Name
+		if len(g.Names) > 0 {
+			name = append(Name{}, g.Names[r.Intn(len(g.Names))]...)
+		}
+		if r.Chance(1, 4) {
+			name = name.Child(g.label())
+		}
+		q := QSpec{Name: name, ID: r.Intn(65536), Class: 1, Flags: r.Intn(2)}
+		q.Type = []int{16, 16, 2, 15, 255, 1, 28, 6}[r.Intn(8)]
+		switch r.Intn(6) {
+		case 0: // no EDNS
+		default:
+			q.Edns = true
+			q.Size = []int{512, 512, 600, 1232, 4096, 0, 700 + r.Intn(200)}[r.Intn(7)]
+			q.DO = r.Chance(1, 2)
+			switch r.Intn(5) {
+			case 0:
+				q.Opts = []dns.EDNS0{Ecs("10.0.0.0", 24, 0)}
+			case 1:
+				q.Opts = []dns.EDNS0{Ecs("fd00:1:2:3::", 56, 0)}
+			case 2:
+				q.Opts = []dns.EDNS0{Ecs("2001:db8::1", 128, 0)}
+			case 3:
+				q.Opts = []dns.EDNS0{&dns.EDNS0_COOKIE{Code: dns.EDNS0COOKIE, Cookie: "0102030405060708"}, Ecs("172.16.5.0", 24, 0)}
+			}
+		}
+		wire, err := PackQuery(q)
+		if err != nil {
+			continue
+		}
+		qs = append(qs, Query{Wire: wire, Client: Clients[r.Intn(len(Clients))], Max: 1 + r.Intn(3), Class_: "udp", Udp: true})
+	}
+	return qs
+}
+
 // RunWire is the body of the C13 harness command: per database two cases, one with the
 // queries of EDNS version 0 / without OPT, one with the queries of another EDNS version.
 func RunWire(a *hlib.Args, e *hlib.Emitter, stream uint64) error {
@@ -131,6 +172,16 @@ func RunWire(a *hlib.Args, e *hlib.Emitter, stream uint64) error {
 			}
 			cs = append(cs, &FileCase{Class: class, Mtime: g.Mtime, Lines: lines, Queries: GenWireQueries(g, nq, false)})
 			cs = append(cs, &FileCase{Class: class + "+badvers", Mtime: g.Mtime, Lines: lines, Queries: GenWireQueries(g, 6, true)})
+		}
+		// the size clause: replies over UDP against a database with large record sets
+		nu := 1
+		if a.Tier == "thorough" {
+			nu = 12
+		}
+		for i := 0; i < nu; i++ {
+			r := hlib.NewRng(a.Seed, stream+5000+uint64(i))
+			g := Generate(r, "udp", 1700000000+int64(r.Intn(1000000)))
+			cs = append(cs, &FileCase{Class: "udp", Mtime: g.Mtime, Lines: g.Lines, Queries: GenUdpQueries(g, 70)})
 		}
 	}
 	if err := BuildAll(cs, a.Scratch, 8); err != nil {
